@@ -460,7 +460,7 @@ def run(run):
                 "states = distinct serialized JSON values" % (2 if th else 1, len(SOURCES) * len(DESTS) * len(TRANSPLANT_TS), " and all generated instances" if th else ""))
     run.bound = {"option_sets": len(OPTIONS), "cases": len(cases), "round_trip_iterations": 2}
     run.assumptions += ["instances from the frozen spec model; top-level key order compared with the frozen `order` lists", "equality is the library's own Mapping equality plus class identity"]
-    run.pmap(run_case, cases)
+    run.pmap(run_case, cases, order_independent=True)
     run.part.sample({"kind": "generated", "version": "2.1", "key": "objects:location", "label": "min+latitude#4", "options": OPTIONS[7]})
     run.part.sample({"kind": "transplant", "src": "v21.created", "dst": "v21.object_modified", "ts": "2016-05-12T08:17:27.123456Z", "expect": "millisecond-exact property stores .123 and round-trips"})
     run.part.sample({"kind": "extra", "label": "bundle-with-unregistered-dict", "version": "2.1"})
